@@ -185,7 +185,28 @@ func isErrorReturn(ret *ssa.Return) bool {
 	if ei < 0 || ei >= len(ret.Results) {
 		return false
 	}
-	return provablyNonNilError(ret.Results[ei], ret.Block(), 0)
+	return provablyNonNilError(retVal(ret, ei), ret.Block(), 0)
+}
+
+// retVal returns the i-th returned value, looking through the result spill that go/ssa
+// introduces in functions with defers (`*res = v; rundefers; t = *res; return t`).
+func retVal(ret *ssa.Return, i int) ssa.Value {
+	v := ret.Results[i]
+	u, ok := v.(*ssa.UnOp)
+	if !ok {
+		return v
+	}
+	al, ok := u.X.(*ssa.Alloc)
+	if !ok {
+		return v
+	}
+	b := ret.Block()
+	for j := len(b.Instrs) - 1; j >= 0; j-- {
+		if st, ok := b.Instrs[j].(*ssa.Store); ok && st.Addr == ssa.Value(al) {
+			return st.Val
+		}
+	}
+	return v
 }
 
 func provablyNonNilError(v ssa.Value, at *ssa.BasicBlock, depth int) bool {
